@@ -140,7 +140,8 @@ def diff(
             delta_only=delta_only,
         )
     finally:
-        if not copy:
+        # The hashes were cached on the input nodes unless the copies were hashed instead
+        if not (copy and matchings):
             for node in chain(source_nodes, target_nodes):
                 node._hash = None
 
